@@ -260,7 +260,13 @@ fn main() {
                         }
                         logs.push(json!({"round": r, "threads": n, "seed": s, "events": v["events"]}));
                     }
-                    Err(e) => problems.push(json!({"round": r, "threads": n, "seed": s, "what": if e == "TIMEOUT" { "a call did not complete within 20 s (deadlock)".to_string() } else { e }})),
+                    Err(e) => {
+                        problems.push(json!({"round": r, "threads": n, "seed": s, "what": if e == "TIMEOUT" { "a call did not complete within 20 s (deadlock)".to_string() } else { e }}));
+                        // no point in waiting out the watchdog in every remaining round
+                        if problems.iter().filter(|p| p["what"].as_str().map(|w| w.contains("did not complete")).unwrap_or(false)).count() >= 2 {
+                            break;
+                        }
+                    }
                 }
             }
             std::fs::write(&out, serde_json::to_string(&json!({"rounds": rounds, "calls": calls_done, "problems": problems, "logs": logs})).unwrap()).expect("write");
